@@ -138,7 +138,7 @@ class HashTable:
         return f"{self.__class__.__name__}({self._keys.ravel().tolist()}, {v})"
 
     def _get_mod(self, keys):
-        return self.dtype(2 * keys.size - 1)  # TODO: make prime
+        return int(2 * keys.size - 1)  # TODO: make prime; a plain int, so int64 queries hash on uint64-keyed tables
 
     def _get_hash(self, keys):
         return keys % self._mod
